@@ -117,7 +117,7 @@ theorem C09_min_rule (c s : Option Nat) :
   cases c <;> cases s <;> simp [effective] <;> omega
 
 /-- Cut-off: the call yields the inner result iff it finishes no later than the effective
-timeout, and `Timeout expired` otherwise; it is never left pending. -/
+timeout, and `Timeout expired` otherwise; it is never left pending. (Transcription lemma: it holds by unfolding the model's definition, so it pins the model's shape for the correspondence run — its assurance about tonic is the tie, not this proof.) -/
 theorem C09_cutoff (latency : Nat) (T : Option Nat) :
     run latency T = (match T with
       | some t => if t < latency then Outcome.timeout else Outcome.inner
